@@ -256,6 +256,18 @@ func (ex *Exec) oblige(st *State, kind, name string, cond *Term, pos token.Pos) 
 	if ex.specMode > 0 {
 		return
 	}
+	if os.Getenv("ICSVC_DEBUG_CONFLICT") != "" && strings.Contains(name, os.Getenv("ICSVC_DEBUG_CONFLICT")) {
+		debugConflict = func(t *Term) {
+			fmt.Fprintf(os.Stderr, "PC conflict in %s on: %s\n", name, t.String())
+			if os.Getenv("ICSVC_DEBUG_CONFLICT_FULL") != "" {
+				for i, c := range st.pc {
+					fmt.Fprintf(os.Stderr, "   pc[%d] %s\n", i, c.String())
+				}
+			}
+		}
+		st.PC()
+		debugConflict = nil
+	}
 	if cond == True {
 		// still record (trivially discharged) so that obligation counts are stable
 		ex.obs = append(ex.obs, &ObRecord{Name: name, Kind: kind, PC: True, Cond: True, Pos: ex.pos(pos)})
@@ -809,6 +821,9 @@ func (ex *Exec) runBody(fr *Frame, h *ssa.BasicBlock, st *State) []Result {
 func (ex *Exec) runFrom(fr *Frame, b *ssa.BasicBlock, idx int, st *State) []Result {
 	for {
 		if st.dead {
+			if os.Getenv("ICSVC_DEBUG_DEAD") != "" && ex.specMode == 0 {
+				fmt.Fprintf(os.Stderr, "dead state at %s (block %d of %s)\n", ex.site, b.Index, fr.fn.Name())
+			}
 			return nil
 		}
 		if idx == 0 && ex.skipHeader == b {
@@ -1641,6 +1656,9 @@ func (ex *Exec) enterLoopHeader(fr *Frame, lp *Loop, st *State) (bool, []Result)
 	if fr.cut[h] {
 		// back edge: establish the invariant again, path ends
 		ex.checkInvariants(fr, lp, st, "preserve")
+		if ex.specMode == 0 && fr.fn == ex.topFn {
+			ex.covers = append(ex.covers, &ObRecord{Name: fmt.Sprintf("%s#cover:loop%d.backedge", ex.fnPrefix, lp.ordinal), Kind: "cover", PC: st.PC(), Cond: True})
+		}
 		return false, nil
 	}
 	inv := ex.invariantsFor(fr, lp)
@@ -1715,11 +1733,22 @@ func (ex *Exec) canUnroll(fr *Frame, lp *Loop, st *State) bool {
 func (ex *Exec) checkInvariants(fr *Frame, lp *Loop, st *State, phase string) {
 	for _, iv := range ex.invariantsFor(fr, lp) {
 		c := ex.evalInvariant(fr, lp, iv, st)
+		if os.Getenv("ICSVC_DEBUG_INV") != "" && ex.specMode == 0 && iv.Label == os.Getenv("ICSVC_DEBUG_INV") {
+			w := ""
+			for id, ww := range st.worlds {
+				w += fmt.Sprintf(" w%d:S#%d(%s)", id, ww.S.id, ww.S.Op)
+			}
+			fmt.Fprintf(os.Stderr, "inv %s %s: cond dag=%d true=%v pc=%d pcFalse=%v worlds:%s\n", phase, iv.Label, dagSize(c), c == True, len(st.pc), st.PC() == False, w)
+		}
 		name := fmt.Sprintf("%s#loop%d.%s", ex.obPrefixFor(fr), lp.ordinal, phase)
 		if iv.Label != "" {
 			name += ":" + iv.Label
 		}
-		ex.oblige(st, "loop."+phase, name, c, lp.header.Instrs[0].Pos())
+		kind := "loop." + phase
+		if iv.Stretch {
+			kind = "stretch"
+		}
+		ex.oblige(st, kind, name, c, lp.header.Instrs[0].Pos())
 	}
 }
 
